@@ -207,7 +207,27 @@ impl<'tcx> Cx<'tcx> {
             Rvalue::UnaryOp(op, a) => {
                 J::A(vec![s("unop"), s(format!("{:?}", op)), self.operand(body, a)])
             }
-            Rvalue::Discriminant(p) => J::A(vec![s("discr"), self.place(body, p)]),
+            Rvalue::Discriminant(p) => {
+                let mut v = vec![s("discr"), self.place(body, p)];
+                let pty = p.ty(&body.local_decls, self.tcx).ty;
+                if let ty::Adt(def, _) = pty.kind() {
+                    if def.is_enum() && def.variants().len() <= 80 {
+                        v.push(s(self.path(def.did())));
+                        let vars: Vec<J> = def
+                            .variants()
+                            .iter_enumerated()
+                            .map(|(vi, var)| {
+                                J::A(vec![
+                                    s(def.discriminant_for_variant(self.tcx, vi).val),
+                                    s(var.name),
+                                ])
+                            })
+                            .collect();
+                        v.push(J::A(vars));
+                    }
+                }
+                J::A(v)
+            }
             Rvalue::CopyForDeref(p) => J::A(vec![s("copyderef"), self.place(body, p)]),
             Rvalue::Aggregate(kind, ops) => {
                 let k = match &**kind {
